@@ -181,6 +181,8 @@ OneResult runOne(RK kind, const Delivery& d, const std::string& wire, Transcript
     r.walk = extract(doc->as<JsonVariantConst>(), wo);
     r.nesting = doc->nesting();
     auto rep = verif::Inspector::checkShape(*doc, "C03:malformed-document", true);
+    if (!rep.refUnderflow.empty())
+      violate("C06:string-refcount", "after deserialization: " + rep.refUnderflow);
     if (!noMem && !alloc.nFaultsFired && !r.overflowed) {
       if (rep.leaked)
         violate("C06:slot-leak", "slots leaked by a deserialization in which no allocation failed");
